@@ -26,6 +26,16 @@ theorem table_wf_partial : ∀ d ∈ table, d.admissible table = true ∨ (d.cls
   · exact Or.inl h
   · exact Or.inr (List.contains_iff_mem.mp h)
 
+/-- all broadcast attributes outside the open exceptions satisfy the hypothesis of the generic laws -/
+theorem table_broadcast_wf_partial : ∀ d ∈ table, (d.cls, d.name) ∉ openExceptions →
+    d.name ∉ ["names", "pipelines", "targets", "observers", "sight_lines", "foil_detectors"] → d.wfBroadcast = true := by
+  intro d hd hex hn
+  rcases table_wf_partial d hd with h | h
+  · simp only [List.mem_cons, List.not_mem_nil, or_false, not_or] at hn
+    obtain ⟨h1, h2, h3, h4, h5, h6⟩ := hn
+    simpa [Descriptor.admissible, h1, h2, h3, h4, h5, h6] using h
+  · exact absurd h hex
+
 /-- (class, attribute) keys are unique, so `findDesc` returns *the* descriptor -/
 theorem table_lookup_total : table.all (fun d => findDesc table d.cls d.name == some d) = true := by decide +kernel
 
